@@ -107,8 +107,8 @@ std::string gen_string_value(Rng &r, bool hostile, int maxlen)
 		else
 			s += (char)r.range('0', '9');
 	}
-	if (hostile && r.chance(1, 10)) {
-		static const char *frag[] = {"${HOME}", "${X:-d}", "/*", "*/", "//", "\\n", "\\\n", "${", "}", "\\x41", "\\101", "'", "\"", "\\"};
+	if (hostile && r.chance(1, 8)) {
+		static const char *frag[] = {"${HOME}", "${X:-d}", "/*", "*/", "//", "\\n", "\\\n", "${", "}", "\\x41", "\\101", "'", "\"", "\\", "\r\n", "\n\r", "\r", "\r\n\r\n", "\t\n"};
 		s.insert(r.below(s.size() + 1), frag[r.below(sizeof(frag) / sizeof(frag[0]))]);
 	}
 	return s;
